@@ -249,3 +249,24 @@ package rosmar
 //@   loop 1 invariant [C08:postEvent.loop-intact] *event == old(*event)
 //@   loop 1 invariant [C08:postEvent.loop-one-push] iter("list.pushfront") <= 1
 //@   ensures [C20:postEvent.unlocked] any: nolocks()
+//@
+//@ fn (*event).asFeedEvent
+//@   requires e.exp == 0 || e.exp > 2592000
+//@   requires e.revSeqNo != 0
+//@   requires validX(e.xattrs)
+//@   ensures [C08,C09:asFeedEvent.opcode]   result.Opcode == (if e.isDeletion then 3 else 2)
+//@   ensures [C08,C09,C17:asFeedEvent.meta] result.Cas == e.cas && result.Expiry == e.exp && result.RevNo == e.revSeqNo && result.CollectionID == collectionID && result.Key == bytesof(e.key)
+//@   ensures [C08,C09:asFeedEvent.json]     bit(result.DataType, 1) <==> e.isJSON
+//@   ensures [C08,C09:asFeedEvent.xattrbit] bit(result.DataType, 4) <==> len(e.xattrs) > 0
+//@   ensures [C08,C09:asFeedEvent.body]     len(e.xattrs) == 0 ==> result.Value == e.value
+//@   loop 1 invariant [C08:asFeedEvent.loop] true
+//@
+//@ fn (*queue[T]).push
+//@   ensures [C08:queue.push.front]    !old(listnil(q.list)) ==> ok && count("list.pushfront") == 1 && listlen(q.list) == old(listlen(q.list)) + 1
+//@   ensures [C16:queue.push.closed]   old(listnil(q.list)) ==> !ok && count("list.pushfront") == 0
+//@   ensures [C20:queue.push.unlocked] any: nolocks()
+//@
+//@ fn (*queue[T]).close
+//@   ensures [C16:queue.close.closed]   listnil(q.list)
+//@   ensures [C16:queue.close.wakes]    !old(listnil(q.list)) ==> count("broadcast") == 1
+//@   ensures [C20:queue.close.unlocked] any: nolocks()
